@@ -558,6 +558,10 @@ VALUE_OPTIONS = [
     ('yyterminate', ['yyterminate="return 77"'], [], r'return 77', 'what yyterminate() expands to'),
     ('pre-action',  ['pre-action="verif_pre();"'], [], r'\bverif_pre\(\);', 'code run before every action'),
     ('post-action', ['post-action="verif_post(); break;"'], [], r'\bverif_post\(\); break;', 'code run after every action'),
+    # the same fragments in a scanner with a ^ rule: the macros that carry them have an m4 arm of their own for M4_MODE_BOL_NEEDED
+    ('pre-action+bol',  ['pre-action="verif_pre();"'], [], r'\bverif_pre\(\);', 'code run before every action (scanner with a ^ rule)'),
+    ('post-action+bol', ['post-action="verif_post(); break;"'], [], r'\bverif_post\(\); break;', 'code run after every action (scanner with a ^ rule)'),
+    ('user-init+bol',   ['user-init="verif_init();"'], [], r'\bverif_init\(\);', 'code run on the first call (scanner with a ^ rule)'),
     ('user-init',   ['user-init="verif_init();"'], [], r'\bverif_init\(\);', 'code run on the first call'),
     ('extra-type',  ['reentrant', 'extra-type="struct verif_extra *"'], [], r'#define\s+YY_EXTRA_TYPE\s+struct verif_extra \*', 'the type of yyextra'),
     ('prefix',      ['prefix="verif"'], [], r'\bveriflex\b', 'the prefix of the external names'),
@@ -582,8 +586,9 @@ def r5(ctx):
         body = '%{\nstruct verif_extra { int n; };\nstatic void verif_pre(void){} static void verif_post(void){} static void verif_init(void){}\n%}\n'
         if be == 'cxx': body = '%{\nclass VerifLexer : public yyFlexLexer { public: int yylex(); };\n%}\n'
         head = {'cxx': '%option c++\n', 'r': '%option reentrant\n', 'nr': ''}[be]
-        spec = head + ''.join('%%option %s\n' % o for o in o2) + body + '%%\na { }\n%%\n'
-        vs.append((variants.Variant('valopt_%s' % name.strip('-').replace('-', '_') , be, (), o2, flags=flags, raw_spec=spec), name, rx, what))
+        rules = '^a { }\nb { }\n' if name.endswith('+bol') else 'a { }\n'
+        spec = head + ''.join('%%option %s\n' % o for o in o2) + body + '%%\n' + rules + '%%\n'
+        vs.append((variants.Variant('valopt_%s' % name.strip('-').replace('-', '_').replace('+', '_') , be, (), o2, flags=flags, raw_spec=spec), name, rx, what))
     variants.instantiate(ctx.art, [v for v, *_ in vs], 'valopt')
     n = 0
     for v, name, rx, what in vs:
@@ -592,7 +597,21 @@ def r5(ctx):
         if v.crashed or v.refused or v.src is None:
             rep.fail('C19.R5', key + ':refused', v.name, 'flex did not accept the documented option %s: %s' % (name, v.stderr.strip().split('\n')[-1][:120]), replay_input=v.spec(), variant=v.describe()); continue
         code = strip_comments(open(v.src, errors='replace').read())
-        if re.search(rx, code):
+        marker = {'pre-action': 'verif_pre', 'post-action': 'verif_post', 'user-init': 'verif_init'}.get(name.split('+')[0])
+        if re.search(rx, code) and marker is not None:
+            # a code fragment must also be *executed* by the scanning routine: a #define that nothing expands is no effect.
+            # Decided on the IR of the probe: yylex contains a call of the marker function.
+            if v.ll is None:
+                rep.broken('C19.R5: probe %s did not compile to IR: %s' % (v.name, (getattr(v, 'll_err', '') or '')[-200:]))
+            mod = variants.module(v)
+            lexfns = [f for nm, f in mod.functions.items() if nm == 'yylex']
+            if not lexfns: rep.broken('C19.R5: no yylex in probe %s' % v.name)
+            if any(i.op == 'call' and i.callee == marker for i in lexfns[0].ins):
+                rep.ok('C19.R5', 'option %s: %s is part of yylex (call of %s in its IR)' % (name, what, marker))
+            else:
+                rep.fail('C19.R5', key + ':defined-but-never-executed', v.name, 'option %s was accepted and its text is in the generated file, but yylex never executes it (no call of %s in the '
+                         'IR of yylex): %s has no effect in this configuration' % (name, marker, what), replay_input=v.spec(), variant=v.describe())
+        elif re.search(rx, code):
             rep.ok('C19.R5', 'option %s: %s appears in the generated code' % (name, what))
         else:
             rep.fail('C19.R5', key + ':no-effect', v.name, 'option %s was accepted but %s does not appear in the generated code (pattern %s not found outside comments)' % (name, what, rx),
